@@ -2,11 +2,13 @@
 (* C11 / C12 - what a correct router may answer.                                                              *)
 (*                                                                                                            *)
 (* The network is seen at the grain the properties speak about: ROADM sites 1..n and directed ROADM-to-ROADM   *)
-(* links ("arcs") with an integer fibre length; an arc and its opposite direction are the same LINK.          *)
-(* A route is the sequence of sites it visits.  A request asks for a route from s to d that crosses an        *)
-(* ordered include list; every include hop is LOOSE (0) or STRICT (1) and names a site (code 1..n) or "some   *)
-(* line element of arc a->b" (code LineEl(a, b)).  A batch is a list of requests plus synchronisation groups  *)
-(* (lists of request indices that must be pairwise link-disjoint).                                            *)
+(* links ("arcs") <<a, b, k>> with an integer fibre length; k = 0 for the (first) link pair between a and b,  *)
+(* k = 1 for a second, PARALLEL link pair between the same two sites.  An arc and its opposite direction are  *)
+(* the same LINK.  A route is the sequence of arcs it follows.  A request asks for a route from s to d that   *)
+(* crosses an ordered include list; every include hop is LOOSE (0) or STRICT (1) and names a site (code 1..n),*)
+(* "some line element of arc x" (code LineEl(x)), or an element that does not exist (codes 901..999; such a   *)
+(* LOOSE hop is removed by the route-list clean-up before anything else).  A batch is a list of requests plus *)
+(* synchronisation groups (lists of request indices that must be pairwise link-disjoint).                     *)
 (*                                                                                                            *)
 (* Three layers, all pure TLA+ and independent of networkx (1 and 2 here, 3 in RoutingModel):                *)
 (*   1. the ORACLE  - simple paths by bounded recursion, include satisfaction as ordered subsequence,         *)
@@ -14,7 +16,8 @@
 (*   2. the CLAUSES - each sentence of C11 / C12 as a named predicate over (graph, batch, outcome); they      *)
 (*                    state the property, not the algorithm: lengths are compared, never node lists, and      *)
 (*                    cases the property text leaves open (mixed LOOSE/STRICT lists whose STRICT part alone   *)
-(*                    is satisfiable, groups larger than one pair) are left unjudged;                         *)
+(*                    is satisfiable, groups larger than one pair, which of two parallel links is "the        *)
+(*                    opposite direction" of an arc) are left unjudged;                                       *)
 (*   3. the MODEL   - a state machine Init -> Route at the grain of compute_path_dsjctn: the candidate        *)
 (*                    combinations of a group are built incrementally and filtered as the code does           *)
 (*                    ("all constraints met, else only LOOSE ones missed, else error"), ungrouped requests    *)
@@ -26,30 +29,40 @@ EXTENDS GnpyBase, TLC
 -----------------------------------------------------------------------------
 (* 1. ORACLE                                                                                                  *)
 
-Sites(G)      == 1..G.n
-LineEl(a, b)  == 1000 * a + b                          \* include code of a line element (fibre, amplifier) of a->b
-LinkId(a, b)  == IF a < b THEN <<a, b>> ELSE <<b, a>>   \* a link and its opposite direction are identified
+LineEl(x)     == 1000000 * x[3] + 1000 * x[1] + x[2]   \* include code of a line element (fibre, amplifier) of arc x
+Unknown(c)    == c > 900 /\ c < 1000                    \* include code of an element that is not in the topology
+Opposite(x)   == <<x[2], x[1], x[3]>>
+SitePair(x)   == IF x[1] < x[2] THEN <<x[1], x[2]>> ELSE <<x[2], x[1]>>
+\* two parallel link pairs between the sites of x: which b->a fibre is "the opposite direction" of which a->b fibre
+\* is then a convention (the code says its reversed paths are not exact there), so nothing is claimed about it
+Doubled(G, x) == \E y \in G.arcs : SitePair(y) = SitePair(x) /\ y[3] # x[3]
+\* surely one link (the same fibre, or the two directions of an only link pair) / surely two different links
+SameLink(G, x, y)  == x = y \/ (x[1] = y[2] /\ x[2] = y[1] /\ ~Doubled(G, x))
+OtherLink(G, x, y) == SitePair(x) # SitePair(y) \/ (x[1] = y[1] /\ x[3] # y[3])
+SurelyDisjoint(G, p, q)    == \A i \in 1..Len(p), j \in 1..Len(q) : OtherLink(G, p[i], q[j])
+SurelyOverlapping(G, p, q) == \E i \in 1..Len(p), j \in 1..Len(q) : SameLink(G, p[i], q[j])
 
-HopsOf(p)     == {<<p[i], p[i + 1]>> : i \in 1..(Len(p) - 1)}
-LinksOf(p)    == {LinkId(p[i], p[i + 1]) : i \in 1..(Len(p) - 1)}
-IsRoute(G, p, s, d) == Len(p) >= 1 /\ p[1] = s /\ p[Len(p)] = d /\ HopsOf(p) \subseteq G.arcs
-IsSimple(p)   == \A i, j \in 1..Len(p) : i < j => p[i] # p[j]
-Reverse(p)    == [i \in 1..Len(p) |-> p[Len(p) + 1 - i]]
+SitesOf(p)    == <<p[1][1]>> \o [i \in 1..Len(p) |-> p[i][2]]      \* p non-empty
+IsRoute(G, p, s, d) == /\ Len(p) >= 1 /\ p[1][1] = s /\ p[Len(p)][2] = d
+                       /\ \A i \in 1..(Len(p) - 1) : p[i][2] = p[i + 1][1]
+                       /\ \A i \in 1..Len(p) : p[i] \in G.arcs
+IsSimple(p)   == Len(p) >= 1 => LET v == SitesOf(p) IN \A i, j \in 1..Len(v) : i < j => v[i] # v[j]
+Reverse(v)    == [i \in 1..Len(v) |-> v[Len(v) + 1 - i]]
+RevRoute(p)   == [i \in 1..Len(p) |-> Opposite(p[Len(p) + 1 - i])]
 
 RECURSIVE PathLen(_, _)
-PathLen(G, p) == IF Len(p) <= 1 THEN 0 ELSE G.len[<<p[1], p[2]>>] + PathLen(G, Tail(p))
+PathLen(G, p) == IF Len(p) = 0 THEN 0 ELSE G.len[p[1]] + PathLen(G, Tail(p))
 
-\* all loop-free routes from the last site of p to d, by bounded recursion (a route has at most n sites)
-RECURSIVE Extend(_, _, _)
-Extend(G, p, d) ==
-  IF p[Len(p)] = d THEN {p}
-  ELSE UNION {Extend(G, Append(p, m), d) :
-              m \in {x \in Sites(G) : <<p[Len(p)], x>> \in G.arcs /\ \A i \in 1..Len(p) : p[i] # x}}
-SimplePaths(G, s, d) == Extend(G, <<s>>, d)
+\* all loop-free routes that continue p (now at site `at`, sites `seen`) to d, by bounded recursion
+RECURSIVE Extend(_, _, _, _, _)
+Extend(G, p, at, seen, d) ==
+  IF at = d THEN {p}
+  ELSE UNION {Extend(G, Append(p, x), x[2], seen \cup {x[2]}, d) : x \in {y \in G.arcs : y[1] = at /\ y[2] \notin seen}}
+SimplePaths(G, s, d) == Extend(G, <<>>, s, {s}, d)
 
-\* the elements a route crosses, in order: site, line of the hop, site, ...
-Elements(p) == [i \in 1..(2 * Len(p) - 1) |->
-                  IF i % 2 = 1 THEN p[(i + 1) \div 2] ELSE LineEl(p[i \div 2], p[i \div 2 + 1])]
+\* the elements a route crosses, in order: site, line of the arc, site, ...
+Elements(p) == [i \in 1..(2 * Len(p) + 1) |->
+                  IF i = 1 THEN p[1][1] ELSE IF i % 2 = 1 THEN p[(i - 1) \div 2][2] ELSE LineEl(p[i \div 2])]
 
 \* inc is an ordered subsequence of e (declarative form; InOrder below is the equivalent greedy recursion,
 \* MC_Routing checks that the two agree)
@@ -62,7 +75,7 @@ InOrderFrom(inc, i, e, j) == IF i > Len(inc) THEN TRUE
                              ELSE IF inc[i] = e[j] THEN InOrderFrom(inc, i + 1, e, j + 1)
                              ELSE InOrderFrom(inc, i, e, j + 1)
 InOrder(inc, e) == InOrderFrom(inc, 1, e, 1)
-Crosses(p, inc) == InOrder(inc, Elements(p))
+Crosses(p, inc) == inc = <<>> \/ (Len(p) >= 1 /\ InOrder(inc, Elements(p)))
 
 \* requests: [s, d, inc, strict] with strict[k] = 1 for a STRICT hop, 0 for a LOOSE one
 RECURSIVE PickStrict(_, _, _)
@@ -71,11 +84,21 @@ PickStrict(inc, strict, k) == IF k > Len(inc) THEN <<>>
 StrictPart(r) == PickStrict(r.inc, r.strict, 1)
 HasStrict(r)  == \E k \in 1..Len(r.inc) : r.strict[k] = 1
 
+\* route-list clean-up (correct_json_route_list): a LOOSE hop naming an element that does not exist is skipped,
+\* the other hops keep their own hop type
+RECURSIVE KeepKnown(_, _)
+KeepKnown(r, k) == IF k > Len(r.inc) THEN <<>>
+                   ELSE (IF Unknown(r.inc[k]) /\ r.strict[k] = 0 THEN <<>> ELSE <<k>>) \o KeepKnown(r, k + 1)
+Clean(r) == LET keep == KeepKnown(r, 1)
+            IN  [s |-> r.s, d |-> r.d, inc |-> [j \in 1..Len(keep) |-> r.inc[keep[j]]],
+                 strict |-> [j \in 1..Len(keep) |-> r.strict[keep[j]]]]
+CleanBatch(b) == [reqs |-> [i \in 1..Len(b.reqs) |-> Clean(b.reqs[i])], groups |-> b.groups]
+
 Feasible(P, inc) == {p \in P : Crosses(p, inc)}
 MinLen(G, P)     == SetMin({PathLen(G, p) : p \in P})
 Shortest(G, P)   == {p \in P : \A q \in P : PathLen(G, p) <= PathLen(G, q)}
 
-\* what the property demands for a request outside any group; P = SimplePaths(G, r.s, r.d)
+\* what the property demands for a (cleaned) request outside any group; P = SimplePaths(G, r.s, r.d)
 Verdict(r, P) ==
   IF P = {} THEN "NO_PATH"                                            \* the two sites are not connected
   ELSE IF Feasible(P, r.inc) # {} THEN "ROUTED"                       \* shortest route crossing the whole list
@@ -92,7 +115,6 @@ SinglePair(b)  == /\ Len(b.groups) >= 1
                   /\ Cardinality(GroupSet(b, 1)) = 2
 \* a group stated twice (same members) is one group: deduplicate_disjunctions
 OneGroup(b)    == Cardinality({GroupSet(b, k) : k \in 1..Len(b.groups)}) = 1
-LinkDisjoint(p, q) == LinksOf(p) \cap LinksOf(q) = {}
 
 \* which routes a grouped request may take:
 \*   "strong": a request with a STRICT hop crosses its whole list (the code's reading: one STRICT makes the list STRICT)
@@ -102,39 +124,44 @@ Accept(r, p, mode) == CASE mode = "strong" -> (HasStrict(r) => Crosses(p, r.inc)
                         [] OTHER           -> TRUE
 
 \* all assignments (request index -> route) of the grouped requests that are pairwise link-disjoint inside every group;
-\* fx[i] are the Facts of request i (defined below), fx[i].P its simple paths
-RECURSIVE Sols(_, _, _, _, _)
-Sols(b, fx, mode, todo, part) ==
+\* fx[i] are the Facts of request i (defined below), fx[i].P its simple paths.  sure = TRUE: surely disjoint whatever
+\* the pairing of parallel links; sure = FALSE: not surely overlapping.  Without parallel links the two coincide.
+RECURSIVE Sols(_, _, _, _, _, _, _)
+Sols(G, b, fx, mode, sure, todo, part) ==
   IF todo = {} THEN {part}
   ELSE LET i  == SetMin(todo)
-           ok == {p \in fx[i].P : /\ Accept(b.reqs[i], p, mode)
-                                /\ \A j \in DOMAIN part : MustDiffer(b, i, j) => LinkDisjoint(p, part[j])}
-       IN  UNION {Sols(b, fx, mode, todo \ {i}, part @@ (i :> p)) : p \in ok}
-Solutions(b, fx, mode) == Sols(b, fx, mode, Grouped(b), <<>>)
+           ok == {p \in fx[i].P :
+                    /\ Accept(b.reqs[i], p, mode)
+                    /\ \A j \in DOMAIN part :
+                         MustDiffer(b, i, j) => IF sure THEN SurelyDisjoint(G, p, part[j])
+                                                ELSE ~SurelyOverlapping(G, p, part[j])}
+       IN  UNION {Sols(G, b, fx, mode, sure, todo \ {i}, part @@ (i :> p)) : p \in ok}
+Solutions(G, b, fx, mode, sure) == Sols(G, b, fx, mode, sure, Grouped(b), <<>>)
 
-\* everything the clauses need to know about one request, computed once: its simple paths P, the verdict v and
-\* the optimum the verdict refers to (min)
+\* everything the clauses need to know about one (cleaned) request, computed once: its simple paths P, the verdict v
+\* and the optimum the verdict refers to (min)
 Facts(G, r) ==
   LET P == SimplePaths(G, r.s, r.d)
       v == Verdict(r, P)
   IN  [P |-> P, v |-> v,
        min |-> IF v = "ROUTED" THEN MinLen(G, Feasible(P, r.inc)) ELSE IF v = "LOOSE_DROPPED" THEN MinLen(G, P) ELSE 0]
-FactsOf(G, b) == [i \in 1..Len(b.reqs) |-> Facts(G, b.reqs[i])]
+FactsOf(G, b) == [i \in 1..Len(b.reqs) |-> Facts(G, Clean(b.reqs[i]))]
 
 -----------------------------------------------------------------------------
 (* 2. CLAUSES over an outcome o = [err |-> 0/1, res |-> <<[st, p, rev], ...>>]                                *)
-(*    st = "path" with p the sites of the route and rev the sites of the reverse route, or a blocking reason  *)
+(*    st = "path" with p the route and rev the reverse route (sequences of arcs), or a blocking reason        *)
 
-Found(p)     == [st |-> "path", p |-> p, rev |-> Reverse(p)]
+Found(p)     == [st |-> "path", p |-> p, rev |-> RevRoute(p)]
 Blocked(why) == [st |-> why, p |-> <<>>, rev |-> <<>>]
 Routed(x)    == x.st = "path"
 NoPathReasons == {"NO_PATH", "NO_PATH_WITH_CONSTRAINT"}
 
-\* --- C11, clauses that need no search (they judge the returned route itself)
+\* --- C11, clauses that need no search (they judge the returned route itself); r is a cleaned request
 RealRoute(G, r, x)       == Routed(x) => IsRoute(G, x.p, r.s, r.d)
 LoopFree(x)              == Routed(x) => IsSimple(x.p)
 StrictHopsCrossed(r, x)  == Routed(x) => Crosses(x.p, StrictPart(r))
-ReverseMirrors(x)        == Routed(x) => x.rev = Reverse(x.p)
+ReverseMirrors(x)        == Routed(x) => /\ Len(x.p) >= 1 /\ Len(x.rev) >= 1
+                                         /\ SitesOf(x.rev) = Reverse(SitesOf(x.p))    \* same sites, in reverse
 
 \* --- C11, clauses relative to the brute-force oracle; f = Facts(G, r), request outside any group
 IncludesInOrder(r, f, x) == (Routed(x) /\ f.v = "ROUTED") => Crosses(x.p, r.inc)
@@ -148,17 +175,18 @@ BlockingReason(f, x)     == ~Routed(x) => /\ x.st \in NoPathReasons
                                           /\ (x.st = "NO_PATH") <=> (f.P = {})
 
 \* --- C12
-GroupsLinkDisjoint(b, o) ==
+GroupsLinkDisjoint(G, b, o) ==
   o.err = 0 => \A i, j \in 1..Len(b.reqs) :
-                  (MustDiffer(b, i, j) /\ Routed(o.res[i]) /\ Routed(o.res[j])) => LinkDisjoint(o.res[i].p, o.res[j].p)
+                  (MustDiffer(b, i, j) /\ Routed(o.res[i]) /\ Routed(o.res[j]))
+                     => ~SurelyOverlapping(G, o.res[i].p, o.res[j].p)
 GroupedAreRouted(b, o)   == o.err = 0 => \A i \in Grouped(b) : Routed(o.res[i])
 ErrorOnlyForGroups(b, o) == o.err = 1 => b.groups # <<>>
 \* completeness for one pair: an error is only allowed when no disjoint combination honours the route constraints
-PairComplete(b, fx, o)   == (o.err = 1 /\ SinglePair(b)) => Solutions(b, fx, "strong") = {}
+PairComplete(G, b, fx, o) == (o.err = 1 /\ SinglePair(b)) => Solutions(G, b, fx, "strong", TRUE) = {}
 \* and an error is mandatory when not even the STRICT hops can be honoured disjointly (any group shape)
-ErrorWhenNoSolution(b, fx, o) == (b.groups # <<>> /\ Solutions(b, fx, "weak") = {}) => o.err = 1
+ErrorWhenNoSolution(G, b, fx, o) == (b.groups # <<>> /\ Solutions(G, b, fx, "weak", FALSE) = {}) => o.err = 1
 
-\* names of the clauses request i fails (search-free part / oracle part), and batch-level clauses
+\* names of the clauses request i fails (search-free part / oracle part), and batch-level clauses; b is cleaned
 StructuralViol(G, b, o, i) ==
   LET r == b.reqs[i]
       x == o.res[i]
@@ -176,22 +204,25 @@ OracleViol(G, b, fx, o, i, tol) ==
            \cup (IF LooseDroppedShortest(G, r, f, x, tol) THEN {} ELSE {"LooseDroppedShortest"})
            \cup (IF BlockedExactly(f, x) THEN {} ELSE {"BlockedExactly"})
            \cup (IF BlockingReason(f, x) THEN {} ELSE {"BlockingReason"})
-BatchStructuralViol(b, o) ==
-  (IF GroupsLinkDisjoint(b, o) THEN {} ELSE {"GroupsLinkDisjoint"})
+BatchStructuralViol(G, b, o) ==
+  (IF GroupsLinkDisjoint(G, b, o) THEN {} ELSE {"GroupsLinkDisjoint"})
   \cup (IF GroupedAreRouted(b, o) THEN {} ELSE {"GroupedAreRouted"})
   \cup (IF ErrorOnlyForGroups(b, o) THEN {} ELSE {"ErrorOnlyForGroups"})
-BatchOracleViol(b, fx, o) ==
-  (IF PairComplete(b, fx, o) THEN {} ELSE {"PairComplete"})
-  \cup (IF ErrorWhenNoSolution(b, fx, o) THEN {} ELSE {"ErrorWhenNoSolution"})
+BatchOracleViol(G, b, fx, o) ==
+  (IF PairComplete(G, b, fx, o) THEN {} ELSE {"PairComplete"})
+  \cup (IF ErrorWhenNoSolution(G, b, fx, o) THEN {} ELSE {"ErrorWhenNoSolution"})
 
-\* the complete judgement: set of <<request index (0 = the batch), clause name>>
-Judge(G, b, fx, o, tol) ==
-  {<<0, c>> : c \in BatchStructuralViol(b, o) \cup BatchOracleViol(b, fx, o)}
-  \cup (IF o.err = 1 THEN {}
-        ELSE UNION {{<<i, c>> : c \in StructuralViol(G, b, o, i) \cup OracleViol(G, b, fx, o, i, tol)} :
-                    i \in 1..Len(b.reqs)})
-JudgeStructural(G, b, o) ==
-  {<<0, c>> : c \in BatchStructuralViol(b, o)}
-  \cup (IF o.err = 1 THEN {}
-        ELSE UNION {{<<i, c>> : c \in StructuralViol(G, b, o, i)} : i \in 1..Len(b.reqs)})
+\* the complete judgement of a batch as the user wrote it (b0): set of <<request index (0 = the batch), clause name>>;
+\* fx = FactsOf(G, b0)
+Judge(G, b0, fx, o, tol) ==
+  LET b == CleanBatch(b0)
+  IN  {<<0, c>> : c \in BatchStructuralViol(G, b, o) \cup BatchOracleViol(G, b, fx, o)}
+      \cup (IF o.err = 1 THEN {}
+            ELSE UNION {{<<i, c>> : c \in StructuralViol(G, b, o, i) \cup OracleViol(G, b, fx, o, i, tol)} :
+                        i \in 1..Len(b.reqs)})
+JudgeStructural(G, b0, o) ==
+  LET b == CleanBatch(b0)
+  IN  {<<0, c>> : c \in BatchStructuralViol(G, b, o)}
+      \cup (IF o.err = 1 THEN {}
+            ELSE UNION {{<<i, c>> : c \in StructuralViol(G, b, o, i)} : i \in 1..Len(b.reqs)})
 ==============================================================================
